@@ -1708,7 +1708,14 @@ pub fn gen_plan_opt(c: &Corpus, run_seed: u64, allow_stress: bool) -> (Plan, Pla
     // texts and member names, so that bounded tables and LRUs fill up and wrap while clients interleave
     let stress = rng.chance(3, 100) && allow_stress;
     let repr: u8 = if stress { rng.below(2) as u8 } else if rng.chance(7, 10) { 0 } else { 1 + rng.below(8) as u8 };
-    let n_slots = 1 + rng.below(4);
+    // themed runs: shapes that need several ingredients at once and that uniform draws assemble too
+    // rarely for a few thousand runs (both were once caught "by one run in 2 000" and then lost)
+    //   1: deep duel — 2-3 clients walk deeply nested documents with `..` and hand over at every node
+    //   2: regex crowd — 9-12 clients gathered inside match/search
+    let theme: u8 = if stress { 0 } else { match rng.below(200) { 0..=2 => 1, 3..=6 => 2, _ => 0 } };
+    let deep_fam = (0..c.families.len()).find(|f| c.contents[c.families[*f][0]].starts_with("#deep"));
+    let theme = if theme == 1 && deep_fam.is_none() { 0 } else { theme };
+    let n_slots = if theme == 1 { 1 + rng.below(2) } else { 1 + rng.below(4) };
     let mut content_map: Vec<usize> = vec![];
     let mut slots: Vec<Vec<usize>> = vec![];
     let mut fams_used: Vec<usize> = vec![];
@@ -1722,9 +1729,14 @@ pub fn gen_plan_opt(c: &Corpus, run_seed: u64, allow_stress: bool) -> (Plan, Pla
     };
     for s in 0..n_slots {
         // a later slot often repeats an earlier family: equal or nearly equal documents live together
-        let mut f = if s > 0 && rng.chance(1, 2) { *rng.pick(&fams_used) } else if stress { *rng.pick(&[0usize, 4 % c.families.len(), 6 % c.families.len()]) } else { rng.below(c.families.len()) };
+        let mut f = if theme == 1 {
+            deep_fam.unwrap()
+        } else if theme == 2 && s == 0 {
+            // the special families (even indexes) hold the regex queries
+            2 * rng.below((c.families.len() + 1) / 2)
+        } else if s > 0 && rng.chance(1, 2) { *rng.pick(&fams_used) } else if stress { *rng.pick(&[0usize, 4 % c.families.len(), 6 % c.families.len()]) } else { rng.below(c.families.len()) };
         // the deep family is expensive: take it one time in three of what a uniform draw would
-        if (c.contents[c.families[f][0]].starts_with("#") || c.contents[c.families[f][0]].len() > 1500) && !fams_used.contains(&f) && rng.chance(2, 3) {
+        if theme == 0 && (c.contents[c.families[f][0]].starts_with("#") || c.contents[c.families[f][0]].len() > 1500) && !fams_used.contains(&f) && rng.chance(2, 3) {
             f = rng.below(c.families.len());
         }
         if !fams_used.contains(&f) {
@@ -1734,7 +1746,11 @@ pub fn gen_plan_opt(c: &Corpus, run_seed: u64, allow_stress: bool) -> (Plan, Pla
         let n_c = 1 + rng.below(3);
         let mut cs = vec![];
         for i in 0..n_c {
-            let ci = if i == 0 && rng.chance(1, 2) { fam[0] } else { *rng.pick(fam) };
+            let mut ci = if i == 0 && rng.chance(1, 2) { fam[0] } else { *rng.pick(fam) };
+            if theme == 1 && c.contents[ci].starts_with("#records") {
+                // a duel hands over at every node: not over 300 000 of them
+                ci = fam[0];
+            }
             cs.push(local_content(ci, &mut content_map));
         }
         slots.push(cs);
@@ -1809,9 +1825,12 @@ pub fn gen_plan_opt(c: &Corpus, run_seed: u64, allow_stress: bool) -> (Plan, Pla
     let has_records = content_map.iter().any(|ci| c.contents[*ci].starts_with("#records"));
     // 2 % of the runs are crowds: 9-12 caller threads with a few operations each (limits on how many
     // callers may be inside some part of the library at once)
-    let crowd = !stress && !has_records && rng.chance(2, 100);
+    let crowd = !stress && !has_records && theme != 1 && (rng.chance(2, 100) || theme == 2);
+    // the site a crowd gathers at is drawn before its operations are: they should be able to reach it
+    let crowd_site: u32 = if theme == 2 { *rng.pick(&[8u32, 9]) } else { *rng.pick(&[8u32, 9, 8, 10, 6, 5, 12, 2]) };
     let n_clients = match if crowd { 4 + rng.below(4) } else if stress { 1 + rng.below(2) } else { rng.weighted(&[2, 3, 3, 2]) } {
         _ if has_records => 1 + rng.below(2),
+        _ if theme == 1 => 2 + rng.below(2),
         4 => 9,
         5 => 10,
         6 => 11,
@@ -1830,14 +1849,25 @@ pub fn gen_plan_opt(c: &Corpus, run_seed: u64, allow_stress: bool) -> (Plan, Pla
     let w_edit = if !stress && rng.chance(1, 6) { 1u32 } else { 0 };
     let mut clients = vec![];
     for _ in 0..n_clients {
-        let n_ops = if stress { 400 + rng.below(500) } else if crowd { 2 + rng.below(5) } else if has_records { 3 + rng.below(6) } else { 3 + rng.below(38) };
+        let n_ops = if stress { 400 + rng.below(500) } else if crowd { 2 + rng.below(5) } else if theme == 1 { 2 + rng.below(3) } else if has_records { 3 + rng.below(6) } else { 3 + rng.below(38) };
+        // themed runs draw their queries from the ones that reach the theme's site
+        let themed_q: Vec<usize> = (0..n_normal_q)
+            .filter(|q| {
+                let t = &c.queries[query_map[*q]];
+                match theme {
+                    1 => t.contains(".."),
+                    2 => t.contains("match(") || t.contains("search("),
+                    _ => false,
+                }
+            })
+            .collect();
         let mut ops = vec![];
         let mut guard = 0;
         while ops.len() < n_ops && guard < 8000 {
             guard += 1;
             let d = rng.below(n_slots);
             // in a long-lived run two operations in three take the next fresh filler text
-            let q = if stress && rng.chance(2, 3) { n_normal_q + rng.below(n_all_q - n_normal_q) } else { rng.below(n_normal_q) };
+            let q = if stress && rng.chance(2, 3) { n_normal_q + rng.below(n_all_q - n_normal_q) } else if !themed_q.is_empty() && rng.chance(4, 5) { *rng.pick(&themed_q) } else { rng.below(n_normal_q) };
             let s = rng.below(n_qslots);
             let op = match rng.weighted(&[5, 4, 5, w_parse, w_e, 1, w_ref, w_swap, w_clone_doc, w_edit, if has_records || stress { 0 } else { w_ref }]) {
                 0 => Op::Q { q, d },
@@ -1879,8 +1909,10 @@ pub fn gen_plan_opt(c: &Corpus, run_seed: u64, allow_stress: bool) -> (Plan, Pla
     }
     let policy = if n_clients == 1 {
         Policy::RunToCompletion
-    } else if crowd && rng.chance(2, 3) {
-        Policy::Barrier { site: *rng.pick(&[8u32, 9, 8, 10, 6, 5, 12, 2]) }
+    } else if crowd && (theme == 2 || rng.chance(2, 3)) {
+        Policy::Barrier { site: crowd_site }
+    } else if theme == 1 {
+        Policy::Random { p: 300 + rng.below(600) as u32 }
     } else {
         match rng.weighted(&[3, 10, 5]) {
             0 => Policy::RunToCompletion,
@@ -1975,8 +2007,15 @@ pub fn gen_plan_opt(c: &Corpus, run_seed: u64, allow_stress: bool) -> (Plan, Pla
     }
     // a deep document has a thousand nodes on one path: mostly keep the per-node schedule points off
     let has_deep = content_map.iter().any(|ci| c.contents[*ci].starts_with("#") || c.contents[*ci].len() > 1500);
-    if has_deep && rng.chance(9, 10) {
+    if has_deep && theme != 1 && rng.chance(9, 10) {
         for s in [3u32, 4, 5, 6, 12] {
+            site_mask &= !(1u64 << s);
+        }
+    }
+    if theme == 1 {
+        // a deep duel hands over at every node of the descent, and nowhere else inside an operation
+        site_mask |= 1u64 << 5;
+        for s in [3u32, 4, 6, 12] {
             site_mask &= !(1u64 << s);
         }
     }
